@@ -266,16 +266,19 @@ inductive ReachD {V : Type} (c : Cfg) (L : Layout) (W : Work V) : State → Maps
 /-! ### `try … finally` of the parent, as a small control-flow model -/
 
 /-- events of the parent that matter for shared memory -/
-inductive Ev | createBkg | createRms | setup | mapGet | collect | poolClose | closeBkg | unlinkBkg | closeRms | unlinkRms
+inductive Ev | createBkg | createRms | setup | mapGet | collect | poolClose | poolTerminate
+  | closeBkg | unlinkBkg | closeRms | unlinkRms
   deriving DecidableEq, Repr
 
-/-- structured programs: an atomic statement may complete or raise (if it is in `mayRaise`) -/
+/-- structured programs: an atomic statement may complete or raise (if `mayRaise`) -/
 inductive Prog
   | atom (e : Ev) (mayRaise : Bool)
+  | raise_
   | seq (a b : Prog)
   | tryFinally (body fin : Prog)
-  /-- `try body except KeyboardInterrupt: handler else: orelse` — the handler catches only what it catches: `catches` -/
-  | tryExcept (body handler orelse : Prog)
+  /-- `try body except A: h1 except B: h2 else: orelse` — which handler matches depends on the exception's
+      class, which the model leaves open: either handler may run, or the exception propagates -/
+  | tryExcept (body h1 h2 orelse : Prog)
   deriving Repr
 
 inductive Outcome | normal | raised
@@ -284,6 +287,7 @@ inductive Outcome | normal | raised
 /-- all executions: (trace of statements that *completed*, outcome) -/
 def Prog.runs : Prog → List (List Ev × Outcome)
   | .atom e r => ([e], .normal) :: (if r then [([], .raised)] else [])
+  | .raise_ => [([], .raised)]
   | .seq a b =>
     (a.runs).flatMap (fun (ta, oa) =>
       match oa with
@@ -293,13 +297,12 @@ def Prog.runs : Prog → List (List Ev × Outcome)
     (body.runs).flatMap (fun (tb, ob) =>
       (fin.runs).map (fun (tf, of_) =>
         (tb ++ tf, match of_ with | .raised => .raised | .normal => ob)))
-  | .tryExcept body handler orelse =>
+  | .tryExcept body h1 h2 orelse =>
     (body.runs).flatMap (fun (tb, ob) =>
       match ob with
       | .normal => (orelse.runs).map (fun (t, o) => (tb ++ t, o))
       | .raised =>
-        -- either the handler's class matches (KeyboardInterrupt) or the exception propagates
-        (tb, .raised) :: (handler.runs).map (fun (t, o) => (tb ++ t, o)))
+        (tb, .raised) :: ((h1.runs).map (fun (t, o) => (tb ++ t, o)) ++ (h2.runs).map (fun (t, o) => (tb ++ t, o))))
 
 /-- the `finally:` block: `ibkg.close(); ibkg.unlink(); irms.close(); irms.unlink()` (closing and
     unlinking a segment that exists does not raise) -/
@@ -308,10 +311,12 @@ def releaseProg : Prog :=
        (.seq (.atom .closeRms false) (.atom .unlinkRms false))
 
 /-- the body of the `try:` in `filter_mc_sharemem`: create both segments, set up barrier and pool,
-    `try: map_async().get() except KeyboardInterrupt: pool.close() else: close/join/copy` -/
+    `try: map_async().get()  except KeyboardInterrupt: pool.close()  except Exception: pool.terminate(); raise
+     else: pool.close(); pool.join(); copy the maps` -/
 def bodyProg : Prog :=
   .seq (.atom .createBkg true) (.seq (.atom .createRms true) (.seq (.atom .setup true)
-    (.tryExcept (.atom .mapGet true) (.atom .poolClose false) (.atom .collect true))))
+    (.tryExcept (.atom .mapGet true) (.atom .poolClose false) (.seq (.atom .poolTerminate false) .raise_)
+      (.atom .collect true))))
 
 /-- the parent's skeleton (BANE.py `filter_mc_sharemem`) -/
 def parentProg : Prog := .tryFinally bodyProg releaseProg
